@@ -83,56 +83,88 @@ def run(res, tier):
     n_total += n_ok + n_err
     res.samples.append({"chain_paths": len(paths), "ok": n_ok, "err": n_err})
 
-    # ---- _check_loop: Err iff an ancestor (or self) carries the key --------------------------------
-    body = E.prog.find("src/engine.rs", "CaCert", "_check_loop")
-    res.functions.append("routinator::engine::CaCert::_check_loop, recursion inlined to 3 ancestors (MIR)")
-    E.max_depth = 4
-    paths = E.explore(body, max_visits=2, nomut=[r"."], inline=[r"CaCert::_check_loop$"],
-                      pure=[r"subject_key_identifier$"])
+    # ---- check_loop: Err iff the issuing CA or one of its ancestors carries the key ---------------------
+    # (whatever the shape: recursive helper or loop; the chain is laid out in memory, Arc is transparent)
+    DEPTH = 3
+    body = E.prog.find("src/engine.rs", "CaCert", "check_loop")
+    i_cert = fields.index("cert")
+    helpers = sorted(set(re.sub(r".*::", "", nm) for nm in E.prog.bodies
+                         if re.search(r"engine::<impl at src/engine\.rs:[^>]*>::_\w*check_loop\w*$", nm)))
+    res.functions.append("routinator::engine::CaCert::check_loop%s, chain of up to %d ancestors above the issuing CA (MIR)"
+                         % (" with " + ", ".join(helpers) + " inlined" if helpers else "", DEPTH))
+    step = (("f", i_parent), ("v", "Some"), ("f", 0))
+    has_parent = [z3.Int("has_parent_%d" % j) for j in range(DEPTH + 1)]
+    key = [z3.Int("key_level_%d" % j) for j in range(DEPTH + 1)]
+    child_key = z3.Int("key_child")
+    for dj in has_parent:
+        E.solver.add(z3.Or(dj == 0, dj == 1))
+    E.solver.add(has_parent[DEPTH] == 0)          # bound: the trust anchor is at most DEPTH levels up
+
+    def pre_loop(E_, st, frame):
+        loc = ("CA",)
+        for j in range(DEPTH + 1):
+            st.mem[loc + (("f", i_parent), "disc")] = has_parent[j]
+            loc = loc + step
+
+    def level_of(loc):
+        return sum(1 for x in loc if x == ("f", i_parent))
+
+    def m_ident(E_, st, frame, callee, argvals, dest_ty):
+        return dict(argvals[0])
+
+    def m_ski(E_, st, frame, callee, argvals, dest_ty):
+        r = argvals[0].get(())
+        if isinstance(r, mir.Ref) and r.loc and r.loc[0] == "CA":
+            j = level_of(r.loc)
+            return {(): key[j]} if j <= DEPTH else NotImplemented
+        if isinstance(r, mir.Opq):
+            return {(): child_key}
+        return NotImplemented
+
+    E.max_depth = DEPTH + 4
+    paths = E.explore(body, max_visits=DEPTH + 3, nomut=[r"."], pre=pre_loop,
+                      arg_values={"_1": {(): mir.Ref(("CA",))}},
+                      inline=[r"CaCert::_\w*check_loop\w*$"],
+                      models={r"^<(ResourceCert|Cert|Arc<CaCert>|Arc<engine::CaCert>) as Deref>::deref$": m_ident,
+                              r"subject_key_identifier$": m_ski})
+    E.max_depth = 6
+    on_chain = []
+    reach = z3.BoolVal(True)
+    for j in range(DEPTH + 1):
+        on_chain.append(z3.And(reach, key[j] == child_key))
+        reach = z3.And(reach, has_parent[j] == 1)
+    spec_err = z3.Or(on_chain)
     n_loop = 0
     for i, p in enumerate(paths):
+        if p.kind == "bound" or any(e.kind == "call" and re.search(r"check_loop", e.name) for e in p.events):
+            if E.feasible(p.cond):
+                res.inconclusive.append("check_loop: a feasible path leaves the %d-ancestor bound (path %d)" % (DEPTH, i))
+            continue
         if p.kind != "return":
             continue
         d = p.ret.get(("disc",))
         if d is None:
+            res.inconclusive.append("check_loop path %d: no result discriminant" % i)
             continue
         n_loop += 1
-        levels = sum(1 for e in p.events if e.kind == "enter") + 1
-        keyids = [e for e in p.events if re.search(r"subject_key_identifier$", e.name)]
-        # an ord-equality in the path condition corresponds to each comparison
-        eqs = [c for c in p.cond if "ord_" in str(c)]
-        truncated = any(e.kind == "call" and re.search(r"CaCert::_check_loop$", e.name) for e in p.events)
-        if truncated:
-            continue        # recursion deeper than the inlining bound: outcome is the opaque call's
-        if must(E, p, d == 0):
-            # Ok: every level compared and unequal, chain ended at a root
-            if len(keyids) < levels:
-                fn = mprop.write_cex(res, "loop_level_skipped_%d" % i, p, E, "an ancestor's key is not compared")
-                res.violation("mir:check-loop-skips-ancestor", "_check_loop accepts without comparing every ancestor's key", fn)
-            # Ok is only justified when the walk reached a root: every visited level but the last had a parent
-            pd = [v for k, v in p.mem.items() if len(k) >= 2 and k[-1] == "disc" and k[-2] == ("f", i_parent) and mir.is_z(v)]
-            n_some = sum(1 for v in pd if must(E, p, v == 1))
-            n_none = sum(1 for v in pd if must(E, p, v == 0))
-            if n_some != levels - 1 or n_none != 1:
-                fn = mprop.write_cex(res, "loop_stops_early_%d" % i, p, E,
-                                     "Ok after visiting %d level(s) although %d parent link(s) were seen present and %d absent"
-                                     % (levels, n_some, n_none))
-                res.violation("mir:check-loop-stops-before-root",
-                              "_check_loop returns Ok without walking the chain up to the trust anchor", fn)
-            for c in eqs:
-                s = z3.simplify(c)
-                if not z3.is_not(s) and not (z3.is_distinct(s)):
-                    fn = mprop.write_cex(res, "loop_equal_but_ok_%d" % i, p, E, "key equal to an ancestor's but Ok returned")
-                    res.violation("mir:check-loop-accepts-repeated-key", "_check_loop returns Ok although an ancestor has the same key", fn)
-        elif must(E, p, d == 1):
-            last = z3.simplify(eqs[-1]) if eqs else None
-            if last is None or z3.is_not(last):
-                fn = mprop.write_cex(res, "loop_err_without_match_%d" % i, p, E, "Err returned although no ancestor key matched")
-                res.violation("mir:check-loop-rejects-without-match", "_check_loop reports a loop although no key on the chain matches", fn)
-        res.samples.append({"check_loop_levels": levels, "result": "Ok" if must(E, p, d == 0) else "Err"})
-    E.max_depth = 6
+        m = E.model(p.cond, (d == 1) != spec_err)
+        if m is not None:
+            hp = [m.eval(x, True).as_long() for x in has_parent]
+            L = hp.index(0)
+            ks = [m.eval(key[j], True).as_long() for j in range(L + 1)]
+            ck = m.eval(child_key, True).as_long()
+            got = "Err" if m.eval(d, True).as_long() == 1 else "Ok"
+            desc = ("issuing CA with %d ancestor(s); key ids from the issuing CA up to the trust anchor: %s; the child "
+                    "certificate's key id: %d; check_loop returns %s" % (L, ks, ck, got))
+            kind = "accepts-repeated-key" if got == "Ok" else "rejects-without-match"
+            fn = mprop.write_cex(res, "check_loop_%s_%d" % (kind.replace("-", "_"), i), p, E, desc, m)
+            if not any(v["key"] == "mir:check-loop-" + kind for v in res.violations):
+                res.violation("mir:check-loop-" + kind,
+                              ("check_loop accepts a certificate whose key already appears on its chain" if got == "Ok" else
+                               "check_loop reports a loop although no key on the chain matches") + ": " + desc, fn)
+        res.samples.append({"check_loop_path": i, "blocks": len(p.trace)})
     if n_loop < 4:
-        res.inconclusive.append("vacuity: _check_loop paths=%d" % n_loop)
+        res.inconclusive.append("vacuity: check_loop paths=%d" % n_loop)
     n_total += n_loop
 
     # ---- a child CA task is created only after both checks -------------------------------------------
@@ -147,8 +179,9 @@ def run(res, tier):
     res.distinct += n_total
     res.bounds += [
         "CaCert::chain: issuer depth and max depth are arbitrary 64-bit values (overflow case included)",
-        "_check_loop: chains of up to 3 ancestors above the certificate (recursion inlined 3 deep); deeper chains "
-        "repeat the same frame",
+        "check_loop: the issuing CA with 0..3 ancestors above it (parent links and all key identifiers symbolic): the "
+        "result is Err exactly when the child's key identifier equals that of the issuing CA or one of its ancestors "
+        "up to and including the trust anchor; deeper chains repeat the same step",
     ]
     res.assumptions += [
         "termination itself is argued, not model-checked: every CA task carries depth = parent depth + 1 <= "
